@@ -7,6 +7,7 @@ From V Require Import Model.SnapOps Model.TreeAssign Proofs.TreeAssignProofs.
 From V Require Import Proofs.TreeAssignConfluence.
 From Coq Require Import ZArith.
 From V Require Import Model.SeqAssign Model.DictAssign Proofs.DictAssignProofs.
+From V Require Import Model.CallAssign Proofs.CallAssignProofs.
 Close Scope Z_scope.
 
 (* the script computed for (old, new) is a valid edit script: it consumes both sequences exactly and
@@ -81,6 +82,30 @@ Theorem C11_dict_equal_entry_verbatim :
   In (DKeep (e_key e) (e_leaf e)) (dict_result F olds news).
 Proof. exact dict_equal_entry_verbatim. Qed.
 
+(* keyword arguments are matched by name: an argument whose value did not change keeps its source text (at any nesting depth of the value) *)
+Theorem C11_call_equal_kw_verbatim :
+  forall (F : flags) (c : call) (fs : list field) (k : Z) (t : tree) (f : field),
+  f_update F = false -> In (k, t) (c_kws c) -> find_field k fs = Some f -> elt_eqb t (fd_val f) = true ->
+  exists r : rtree, In (CKw k r) (call_result F c fs) /\ verbatim r = Some t.
+Proof. exact call_equal_kw_verbatim. Qed.
+
+(* with neither fix nor update approved the whole call survives verbatim *)
+Theorem C11_call_noflags_identity :
+  forall (F : flags) (c : call) (fs : list field),
+  f_fix F = false -> f_update F = false ->
+  map (fun i : citem => match i with CPos r => (None, verbatim r) | CKw k r => (Some k, verbatim r) end) (call_result F c fs) =
+  map (fun e : tree + Z * tree => match e with inl t => (None, Some t) | inr (k, t) => (Some k, Some t) end) (elements c).
+Proof. exact call_noflags_identity. Qed.
+
+(* the full statement is FALSE for positional arguments (finding F-41): `A(0+1)` observed as A(f0=1), fix approved, update not: the unchanged
+   argument is deleted and written again as a keyword *)
+Theorem C11_positional_argument_rewritten_refuted :
+  exists (F : flags) (c : call) (fs : list field),
+  f_fix F = true /\ f_update F = false /\ c_pos c = [TLeaf 1%Z false] /\
+  fs = [{| fd_name := 0%Z; fd_val := VAtom 1%Z; fd_default := false |}] /\
+  call_result F c fs = [CKw 0%Z (RGen (VAtom 1%Z))].
+Proof. exact positional_argument_rewritten_refuted. Qed.
+
 Print Assumptions C11_align_valid.
 Print Assumptions C11_add_x_valid.
 Print Assumptions C11_align_prefix_m.
@@ -94,3 +119,6 @@ Print Assumptions C11_tree_equal_keeps_text.
 Print Assumptions C11_tree_noflags_identity.
 Print Assumptions C11_tree_prefix_verbatim.
 Print Assumptions C11_dict_equal_entry_verbatim.
+Print Assumptions C11_call_equal_kw_verbatim.
+Print Assumptions C11_call_noflags_identity.
+Print Assumptions C11_positional_argument_rewritten_refuted.
